@@ -13,11 +13,52 @@ import (
 	"golang.org/x/tools/go/ssa"
 )
 
-// loops admitted by name: one symbol, the termination argument next to it.
-var admittedLoops = map[string]string{
-	"workspace.Workspace.refreshIncludeTreeLocked": "fixpoint: an iteration continues only if it added at least one file that was not indexed before; the set of files reachable on disk is finite, and indexed files are not re-added",
-	"workspace.Workspace.computeReachableLocked":   "worklist: a path is pushed only while it is not yet marked reachable and is marked when popped; each path is processed at most once",
-	"server.tokenizeForSemantics":                  "token loop: leaves on the EOF token; every other iteration consumes input (L-PROGRESS)",
+// admittedLoop: loops whose termination argument is not of the "every iteration moves a variable of the
+// condition" form, identified by the role of the function (never by its name), with the argument.
+func admittedLoop(p *Prog, fd *ast.FuncDecl, s *ast.ForStmt) (string, bool) {
+	if rf, loop := findRefreshFixpoint(p); rf == fd && loop == s {
+		return "include-tree fixpoint: an iteration continues only if it added at least one file that was not indexed before; the set of files reachable on disk is finite, and indexed files are not re-added", true
+	}
+	// token loop: a condition-less loop that takes the next token from the module's lexer in every iteration
+	// and leaves on the end-of-input token
+	if s.Cond == nil {
+		info := p.InfoFor(fd)
+		next, eof := false, false
+		ast.Inspect(s.Body, func(x ast.Node) bool {
+			switch n := x.(type) {
+			case *ast.CallExpr:
+				if f, ok := calleeOf(info, n).(*types.Func); ok && f.Type().(*types.Signature).Recv() != nil && f.Type().(*types.Signature).Params().Len() == 0 {
+					if res := f.Type().(*types.Signature).Results(); res.Len() == 1 && strings.HasSuffix(types.TypeString(res.At(0).Type(), nil), "parser.Token") {
+						next = true
+					}
+				}
+			case *ast.IfStmt:
+				if be, ok := ast.Unparen(n.Cond).(*ast.BinaryExpr); ok && be.Op == token.EQL {
+					for _, side := range []ast.Expr{be.X, be.Y} {
+						if se, ok := ast.Unparen(side).(*ast.SelectorExpr); ok {
+							if k, ok := info.Uses[se.Sel].(*types.Const); ok && k.Name() == "TokenEOF" {
+								for _, st := range n.Body.List {
+									switch b := st.(type) {
+									case *ast.BranchStmt:
+										if b.Tok == token.BREAK {
+											eof = true
+										}
+									case *ast.ReturnStmt:
+										eof = true
+									}
+								}
+							}
+						}
+					}
+				}
+			}
+			return true
+		})
+		if next && eof {
+			return "token loop: leaves on the end-of-input token; every other iteration consumes input (L-PROGRESS)", true
+		}
+	}
+	return "", false
 }
 
 func ruleLoopCensus(c *Ctx) {
@@ -40,8 +81,8 @@ func ruleLoopCensus(c *Ctx) {
 					c.ok("LOOP-CENSUS", fname, desc, s.Pos(), "scanner/parser loop: covered by the progress interpreters (L-PROGRESS / P-PROGRESS)")
 					return true
 				}
-				if why, ok := admittedLoops[fname]; ok {
-					c.ok("LOOP-CENSUS", fname, desc, s.Pos(), "admitted by name: "+why)
+				if why, ok := admittedLoop(c.P, fd, s); ok {
+					c.ok("LOOP-CENSUS", fname, desc, s.Pos(), "admitted by role: "+why)
 					return true
 				}
 				ok, why := loopMakesProgress(c.P, info, s)
